@@ -64,12 +64,12 @@ CLAIMS = {
     "C08": dict(
         technique="Lean 4 theorems over the model of linalg.py/affine.py/_kornia.py (9 operand-form pairs, 27 Euler "
                   "orders, quaternion/angle-axis algebra) + exhaustive correspondence over forms, batch shapes, order strings",
-        text="40 theorems: composing in any of the 9 operand-form pairs (and n-ary) equals applying one after the other; "
+        text="36 theorems: composing in any of the 9 operand-form pairs (and n-ary) equals applying one after the other; "
              "as_matrix keeps the map; vectors ignore translation; broadcasting shapes; Euler matrix = product of "
              "elementary rotations for all 27 order triples (pins the hard-coded closed forms and the fallback), "
              "orthogonal with det 1 under c^2+s^2=1; order-string normalisation; unit quaternion -> proper rotation; "
-             "angle-axis/quaternion/matrix agreement in verification form; scaling/shear getters-setters. Clauses the "
-             "current code violates are refuted with witnesses and listed as known findings (F-08a..d).",
+             "angle-axis/quaternion/matrix agreement in verification form; scaling/shear getters-setters. The four defects found (F-08a..d) were repaired "
+             "by fix: commits; the model follows the repaired code.",
         ref="5 C08"),
     "C11": dict(
         technique="Lean 4 induction over squaring steps on the model of core/flow.py expv (sampling an affine field "
@@ -121,7 +121,7 @@ CLAIMS = {
     "C16": dict(
         technique="Lean 4 theorems on list models of the losses (reductions, masks, NCC/LCC, Dice/Tversky, MI symmetry) + "
                   "correspondence of functional and module forms",
-        text="41 theorems: mean/sum are the mean/sum of none; masked pointwise losses ignore mask-0 samples and average over "
+        text="46 theorems: mean/sum are the mean/sum of none; masked pointwise losses ignore mask-0 samples and average over "
              "the mask; norm scaling; pointwise losses zero/range/symmetric; NCC and LCC identical/range (Cauchy-Schwarz)/"
              "symmetric/affine-invariant with the exact epsilon law; Dice/Tversky identical/symmetric/range and "
              "Tversky(1/2,1/2) = Dice on binary inputs; MI symmetric for arbitrary window/log. Clauses the current code "
